@@ -59,9 +59,9 @@ def build_harness():
             jobs = []
             jobs.append((["gcc"] + CFLAGS + SAN + ["-Wl,--wrap=fopen", os.path.join(VERIF, "harness", "drv.c")] + libsrc +
                          ["-o", os.path.join(out, "drv")], "drv"))
-            thr = os.path.join(VERIF, "harness", "thr.c")
-            if os.path.exists(thr):
-                jobs.append((["gcc"] + CFLAGS + ["-fsanitize=thread", thr] + libsrc + ["-lpthread", "-o", os.path.join(out, "thr")], "thr"))
+            # the same interpreter, all scenarios of one input as concurrent threads, ThreadSanitizer
+            jobs.append((["gcc"] + CFLAGS + ["-DTHREADS", "-fsanitize=thread", "-Wl,--wrap=fopen", os.path.join(VERIF, "harness", "drv.c")] + libsrc +
+                         ["-lpthread", "-o", os.path.join(out, "thr")], "thr"))
             num = os.path.join(VERIF, "harness", "num.c")
             if os.path.exists(num):
                 jobs.append((["gcc", "-O2"] + CFLAGS[2:] + [num] + libsrc + ["-lpthread", "-lm", "-o", os.path.join(out, "num")], "num"))
